@@ -15,4 +15,25 @@ META = {
                 "stands for 'does not allocate beyond the limit' (plus ulimit -v on the worker processes)",
         "technique": "deterministic simulation: seeded stream chunking and fault placement vs identity model (rapid, shrinking, replay)",
     },
+    "C02": {
+        "text": "Seeded exploration of arrival histories (reordering, duplication, retries, re-delivery of the same/older/newer "
+                "chain-key announcement at any position, receiver restarts, 1-2 senders, windows 1..4 densely and 100 sparsely) "
+                "on the real secret store over SimDisk, every attempt compared with the window reference model "
+                "(c < k <= c+W+opened; opened stays openable; nothing sealed before c opens). Exploration with a reference "
+                "model is the right level: the history space is unbounded, the oracle is exact per attempt.",
+        "design_ref": "section 5, C02; appendix B.1",
+        "note": "opening MORE than the statement requires (beyond the window) is recorded, not reported: the statement gives a lower "
+                "bound on openability; only never-openable messages (no chain key, sealed at or before c) are violations on that side",
+        "technique": "deterministic simulation: seeded arrival/duplication/restart schedules vs ratchet-window reference model",
+    },
+    "C10": {
+        "text": "Crash-point enumeration: for each seeded workload every datastore mutation (put, delete, atomic batch commit) of the "
+                "sender's and the receiver's SimDisk is a crash point; the device restarts on exactly the surviving prefix and the "
+                "four recovery clauses are evaluated, plus (sampled) continuation of the remaining workload under the C02 contract. "
+                "Exhaustive per workload over crash points, sampled over workloads.",
+        "design_ref": "section 5, C10; section 3.3",
+        "note": "crash granularity = datastore mutation (the unit at which durable state changes); the secret store is rebuilt from the "
+                "snapshot, in-memory state is lost; a restart before the identity keys became durable legitimately creates a new identity",
+        "technique": "deterministic simulation: exhaustive crash-point injection on a simulated disk per seeded workload, recovery oracles",
+    },
 }
